@@ -178,6 +178,9 @@ def hSpeakMon (j : Json) : R Json := do
 def hTrunc (j : Json) : R Json := do
   pure (jTrunc (truncate (← getStrCps (← fld j "s")) (← fldInt j "m")))
 
+def hTokCount (j : Json) : R Json := do
+  pure (jNat (tokenize (← getStrCps (← fld j "s"))).length)
+
 def hIsSpace (_ : Json) : R Json := do
   pure (jArr (((List.range 0x110000).filter isSpace).map jNat))
 
@@ -265,7 +268,7 @@ def hSanitizeMon (j : Json) : R Json := do
 
 def routes : List (String × (Json → R Json)) :=
   [("c13.delib", hDelib), ("c13.delib.mon", hDelibMon), ("c13.rag", hRag), ("c13.rag.mon", hRagMon),
-   ("c13.speak", hSpeak), ("c13.speak.mon", hSpeakMon), ("c13.trunc", hTrunc), ("c13.isspace", hIsSpace), ("c13.floatlaws", hFloatLaws),
+   ("c13.speak", hSpeak), ("c13.speak.mon", hSpeakMon), ("c13.trunc", hTrunc), ("c13.isspace", hIsSpace), ("c13.tokcount", hTokCount), ("c13.floatlaws", hFloatLaws),
    ("c13.turn", hTurn), ("c13.sanitize", hSanitize), ("c13.sanitize.mon", hSanitizeMon)]
 
 end Driver.HT3
